@@ -1008,9 +1008,67 @@ def dec_cmp(a, b, op):
     return simp({'==': A == B, '<': A < B, '<=': A <= B, '>': A > B, '>=': A >= B}[op])
 
 
+def int_bounds(t, depth=0):
+    """cheap interval of an Int term built from numerals, + - * , If and bv2int (None if unknown)"""
+    if depth > 40:
+        return None
+    if z3.is_int_value(t):
+        v = t.as_long()
+        return (v, v)
+    if not z3.is_app(t):
+        return None
+    k = t.decl().kind()
+    ch = t.children()
+    if k == z3.Z3_OP_BV2INT or (t.decl().name() == 'bv2int'):
+        w = ch[0].size()
+        return (0, (1 << w) - 1)
+    if k == z3.Z3_OP_ADD:
+        lo = hi = 0
+        for c in ch:
+            b = int_bounds(c, depth + 1)
+            if b is None:
+                return None
+            lo += b[0]
+            hi += b[1]
+        return (lo, hi)
+    if k == z3.Z3_OP_SUB:
+        b0 = int_bounds(ch[0], depth + 1)
+        if b0 is None:
+            return None
+        lo, hi = b0
+        for c in ch[1:]:
+            b = int_bounds(c, depth + 1)
+            if b is None:
+                return None
+            lo -= b[1]
+            hi -= b[0]
+        return (lo, hi)
+    if k == z3.Z3_OP_UMINUS:
+        b = int_bounds(ch[0], depth + 1)
+        return None if b is None else (-b[1], -b[0])
+    if k == z3.Z3_OP_MUL:
+        lo, hi = 1, 1
+        for c in ch:
+            b = int_bounds(c, depth + 1)
+            if b is None:
+                return None
+            cands = [lo * b[0], lo * b[1], hi * b[0], hi * b[1]]
+            lo, hi = min(cands), max(cands)
+        return (lo, hi)
+    if k == z3.Z3_OP_ITE:
+        a, b = int_bounds(ch[1], depth + 1), int_bounds(ch[2], depth + 1)
+        if a is None or b is None:
+            return None
+        return (min(a[0], b[0]), max(a[1], b[1]))
+    return None
+
+
 def fits96(it, m):
     if not is_sym(m):
         return -MAX96 <= m <= MAX96
+    b = int_bounds(m)
+    if b is not None and -MAX96 <= b[0] and b[1] <= MAX96:
+        return True
     return it.truth(z3.And(m >= -MAX96, m <= MAX96))
 
 
